@@ -23,9 +23,16 @@ def make_install(files, raw=None, n_families=4):
     return root
 
 
-def run_generate(root, hashseed=0, timeout=120):
+def run_generate(root, hashseed=0, timeout=120, ascii_locale=False, foreign_cwd=False):
+    """The user's flow.  ascii_locale: a process whose default text encoding is ASCII (no UTF-8 mode, C locale);
+    foreign_cwd: started from another working directory with an absolute script path."""
     env = dict(os.environ, PYTHONHASHSEED=str(hashseed), PYTHONDONTWRITEBYTECODE="1", PYTHONPATH=root)
-    p = subprocess.run([PY, "-B", "protocol.py", "generate"], cwd=root, env=env, capture_output=True, text=True, timeout=timeout)
+    if ascii_locale:
+        env.update(PYTHONUTF8="0", PYTHONCOERCECLOCALE="0", LC_ALL="C", LANG="C")
+        env.pop("PYTHONIOENCODING", None)
+    cwd = "/" if foreign_cwd else root
+    script = os.path.join(root, "protocol.py") if foreign_cwd else "protocol.py"
+    p = subprocess.run([PY, "-B", script, "generate"], cwd=cwd, env=env, capture_output=True, text=True, timeout=timeout, errors="replace")
     return p.returncode, (p.stdout[-2000:] + p.stderr[-3000:])
 
 
